@@ -183,15 +183,14 @@ def s7_generation_guard(C, rep, rid):
         rep.anchor(rid, "%s: writes of PersistPaymentState::Free" % d["self_ty"], nfree, 1)
         # where AttemptId.state_generation comes from
         srcs = 0
-        for b in F.code_bodies():
-            if not (b.cdef.startswith("<" + d["self_ty"]) or b.cdef.startswith("store::")):
-                continue
-            if lib.third_party_expansion(b.span):
-                continue
-            for bi in sorted(b.reachable):
-                for s in b.blocks[bi]["s"]:
-                    if s["k"] == "assign" and s["rv"]["k"] == "agg" and s["rv"].get("adt") == "store::AttemptId" and not lib.third_party_expansion(s["sp"]):
+        for b, bi, s in F.aggregates("store::AttemptId"):
+            if True:
+                if True:
+                    if True:
                         srcs += 1
+                        if "state_generation" not in s["rv"]["fields"]:
+                            rep.ob(rid, False, F.root_of(b), "AttemptId.state_generation provenance", where=loc(s["sp"]), detail="AttemptId built without an explicit state_generation")
+                            continue
                         e = strip(X.operand(b, s["rv"]["ops"][s["rv"]["fields"].index("state_generation")]))
                         e = mm.expand_params(F, X, e, depth=2)
                         ok = False
